@@ -24,6 +24,7 @@ from . import report
 # (relative file, old text, new text, expected rule or None)
 MUTANTS: Dict[str, List[Tuple[str, str, str, Optional[str]]]] = {
     "C01": [
+        ('pyttb/tensor.py', '        if rdims.size == 0:\n            dims = cdims.copy()', '        if rdims.size == 0:\n            dims = np.arange(n)', 'PS'),
         ('pyttb/tenmat.py', '        if order.size > 1:\n            if not copy:', '        if order.size > 1 and self.rindices.size > 0 and self.cindices.size > 0:\n            if not copy:', 'INV'),
         ("pyttb/tenmat.py", "data = to_memory_order(np.transpose(data, np.argsort(order)), self.order)", "data = to_memory_order(np.transpose(data, order), self.order)", "INV"),
         ("pyttb/tenmat.py", "data = np.reshape(data, np.array(shape)[order], order=self.order)", "data = np.reshape(data, np.array(shape)[order])", "EO-1"),
@@ -31,6 +32,8 @@ MUTANTS: Dict[str, List[Tuple[str, str, str, Optional[str]]]] = {
         ("pyttb/ktensor.py", "ttb.khatrirao(*self.factor_matrices[:i_split], reverse=True)", "ttb.khatrirao(*self.factor_matrices[:i_split])", "KR"),
     ],
     "C02": [
+        ('pyttb/sptensor.py', '        c = ttb.sptensor.from_aggregator(newsubs, newvals, tuple(newsiz))', '        c = ttb.sptensor(newsubs, newvals, tuple(newsiz))', 'AGG'),
+        ('pyttb/tensor.py', '        if self.ndims > 1:\n            c = np.transpose(c, np.concatenate((remdims, dims)))', '        if self.ndims > 1 and (self.ndims - 1) in remdims:\n            c = np.transpose(c, np.concatenate((remdims, dims)))', 'MOVE'),
         ('pyttb/ktensor.py', '        W = np.tile(self.weights[:, None], (1, R))', '        W = np.ones((self.ncomponents, R))', 'WDEG'),
         ('pyttb/tensor.py', '            V = np.zeros((szn, R), order=self.order)', '            V = np.zeros((szn, R), dtype=self.data.dtype, order=self.order)', 'DTYPE'),
         ("pyttb/tensor.py", "            c = c.dot(vector[vidx[i]])", "            c = c.dot(vector[i])", "VIDX"),
@@ -47,6 +50,7 @@ MUTANTS: Dict[str, List[Tuple[str, str, str, Optional[str]]]] = {
         ("pyttb/sptensor.py", "cvals = self.vals * np.atleast_1d(other[csubs])[:, None]", "cvals = self.vals * other[csubs][:, None]", "SC"),
     ],
     "C04": [
+        ('pyttb/sptensor.py', '                sliceRegion = range(0, self.shape[i])[region[i]]\n                tf = np.isin(self.subs[loc, i], sliceRegion)', '                start = region[i].start or 0\n                stop = region[i].stop or self.shape[i]\n                tf = (self.subs[loc, i] >= start) & (self.subs[loc, i] < stop)', 'SLICE'),
         ('pyttb/sptensor.py', '                self.subs = newsubs[idxc, :]\n                self.vals = newvals[idxc]\n\n        # Resize the tensor', '                self.subs = newsubs[idxc, :]\n                self.vals = newvals[idxc]\n        else:\n            return\n\n        # Resize the tensor', 'GROW'),
         ("pyttb/sptensor.py", "            removesubs = tf[idxb]", "            removesubs = np.where(idxb)[0]", "IX-dom"),
         ("pyttb/sptensor.py", "        idxa = np.logical_and(found, nonzero_new)", "        idxa = np.logical_and(found, newvals != 0)", "IX-kind"),
@@ -67,12 +71,14 @@ MUTANTS: Dict[str, List[Tuple[str, str, str, Optional[str]]]] = {
         ("pyttb/sptensor.py", "                    newsubs = np.vstack((newsubs, self.subs[moresubs, :]))\n                    newvals = np.vstack((newvals, morevals))\n\n            # other nonzero", "                    newsubs = np.vstack((newsubs, SelfZeroSubs[moresubs, :]))\n                    newvals = np.vstack((newvals, morevals))\n\n            # other nonzero", "IX-dom"),
     ],
     "C07": [
+        ('pyttb/tensor.py', '        return ttb.tensor(np.transpose(self.data, order), copy=True)', '        if order[0] == 0:\n            return ttb.tensor(self.data, tuple(np.array(self.shape)[order]), copy=True)\n        return ttb.tensor(np.transpose(self.data, order), copy=True)', 'FWD'),
         ("pyttb/sptensor.py", "self.subs[:, order], self.vals, tuple(np.array(self.shape)[order])", "self.subs[:, order], self.vals, tuple(np.array(self.shape)[np.argsort(order)])", None),
         ("pyttb/tensor.py", "self.data.reshape(shape, order=self.order), shape, copy=True", "self.data.reshape(shape, order=\"C\"), shape, copy=True", "EO-1"),
         ("pyttb/ktensor.py", "[self.factor_matrices[i] for i in order]", "[self.factor_matrices[i] for i in np.argsort(order)]", "FWD"),
         ("pyttb/ttensor.py", "new_u = [self.factor_matrices[idx] for idx in order]", "new_u = [self.factor_matrices[idx] for idx in np.argsort(order)]", None),
     ],
     "C08": [
+        ('pyttb/ktensor.py', '                p = np.argsort(self.weights)[::-1]\n                self.arrange(permutation=p)', '                p = np.argsort(self.weights)[::-1]\n                self.weights[:] = np.abs(self.weights)\n                self.arrange(permutation=p)', 'PS-k'),
         ('pyttb/ktensor.py', '        D = np.diag(np.power(np.fabs(self.weights), 1.0 / self.ndims))\n        factor_matrices = self.factor_matrices.copy()\n        factor_matrices[0] = factor_matrices[0] @ np.diag(lsgn)', '        D = np.diag(lsgn * np.power(np.fabs(self.weights), 1.0 / self.ndims))\n        factor_matrices = self.factor_matrices.copy()', 'SCALE'),
         ('pyttb/ktensor.py', '                nflip = int(2 * np.floor(np.size(negidx) / 2))\n\n                for i in range(nflip):\n                    n = negidx[i]', '                nflip = 2 * round(np.size(negidx) / 2)\n\n                for n in negidx[:nflip]:', 'PARITY'),
         ("pyttb/ktensor.py", "                    endpt = breakpt + 2", "                    endpt = breakpt + 1", "PARITY"),
@@ -101,6 +107,7 @@ MUTANTS: Dict[str, List[Tuple[str, str, str, Optional[str]]]] = {
         ("pyttb/cp_apr.py", "    for iteration in range(maxiters):\n        isConverged = True\n        for n in range(N):\n            # Make adjustments", "    for iteration in range(maxiters + 1):\n        isConverged = True\n        for n in range(N):\n            # Make adjustments", "LOOP"),
     ],
     "C12": [
+        ('pyttb/gcp/fg.py', '            Y *= weights\n        F = float(np.sum(Y))', '            Y[weights == 0] = 0\n        F = float(np.sum(Y))', 'FG-agree'),
         ("pyttb/gcp/handles.py", "    return 1 - data / (model + EPS)", "    return 1 - data / (model + EPS) ** 2", "GRAD-deriv"),
         ("pyttb/gcp/fg_setup.py", "        function_handle = handles.poisson\n        gradient_handle = handles.poisson_grad\n        lower_bound = 0.0", "        function_handle = handles.poisson\n        gradient_handle = handles.poisson_grad\n        lower_bound = -np.inf", "DOM-lb"),
         ("pyttb/gcp/fg.py", "        Y = gradient_handle(data.data, full_model.data)\n        if weights is not None:\n            Y *= weights", "        Y = gradient_handle(data.data, full_model.data)", "FG-agree"),
@@ -114,6 +121,7 @@ MUTANTS: Dict[str, List[Tuple[str, str, str, Optional[str]]]] = {
         ("pyttb/gcp/optimizers.py", "        self._solver_kwargs[\"callback\"] = monitor.callback", "        pass", "ST-slot"),
     ],
     "C14": [
+        ('pyttb/tensor.py', '            w, v = scipy.sparse.linalg.eigsh(y, r)\n            v = v[:, (-np.abs(w)).argsort()]', '            w, v = scipy.sparse.linalg.eigsh(y, r)\n            v = v / np.sqrt(np.abs(w))\n            v = v[:, (-np.abs(w)).argsort()]', 'EIG-gram'),
         ('pyttb/ktensor.py', '        M = self.weights[:, None] @ self.weights[:, None].T\n        for i in range(self.ndims):', '        M = np.tile(self.weights[:, None], (1, self.ncomponents))\n        for i in range(self.ndims):', 'EIG-gram'),
         ('pyttb/tensor.py', '            w, v = scipy.linalg.eigh(y)\n            v = v[:, (-np.abs(w)).argsort()]\n            v = v[:, :r]', '            v, _, _ = scipy.linalg.svd(Xn, full_matrices=False)\n            v = v[:, :r]', 'EIG-ret'),
         ("pyttb/ktensor.py", "            w, v = scipy.linalg.eigh(y)\n            v = v[:, (-np.abs(w)).argsort()]", "            w, v = scipy.linalg.eigh(y)\n            v = v[(-np.abs(w)).argsort()]", "EIG-ret"),
@@ -121,23 +129,27 @@ MUTANTS: Dict[str, List[Tuple[str, str, str, Optional[str]]]] = {
         ("pyttb/ttensor.py", "            idx = np.argmax(np.abs(v), axis=0)", "            idx = np.argmax(np.abs(v), axis=1)", "EIG-sign"),
     ],
     "C15": [
+        ('pyttb/ktensor.py', '                    weights[j] = -weights[j]\n            V = V + fmi', '                    weights[j] = -1.0\n            V = V + fmi', 'SIGNPAIR'),
         ('pyttb/tensor.py', '                    != self.data[tuple(classidx.transpose())]\n                ):\n                    return False\n\n            # We survived all the tests!\n            return True', '                    != self.data[tuple(classidx.transpose())]\n                ):\n                    is_sym = False\n                else:\n                    is_sym = True\n\n            # We survived all the tests!\n            return is_sym', 'ALLGRP'),
         ("pyttb/tensor.py", "classSum = accumarray(linclassidx, data.ravel(order=self.order))", "classSum = accumarray(linclassidx, data.ravel())", "EO-2"),
         ("pyttb/tensor.py", "                    self.data.ravel(order=self.order)\n                    != self.data[tuple(classidx.transpose())]", "                    self.data.ravel(order=\"C\")\n                    != self.data[tuple(classidx.transpose())]", "EO-2"),
     ],
     "C16": [
+        ('pyttb/export_data.py', '    data.tofile(fp, sep="\\n", format=fmt_data)', '    np.ravel(data, order="K").tofile(fp, sep="\\n", format=fmt_data)', 'IO-layout'),
         ("pyttb/export_data.py", "    if not fmt_data:\n        fmt_data = \"%.16e\"\n    data.tofile(fp, sep=\"\\n\", format=fmt_data)", "    if not fmt_data:\n        fmt_data = \"%.8e\"\n    data.tofile(fp, sep=\"\\n\", format=fmt_data)", "IO-fmt"),
         ("pyttb/export_data.py", "subs = A.subs[i, :] + 1", "subs = A.subs[i, :]", "IO-base"),
         ("pyttb/export_data.py", "export_array(fp, data.data.transpose(), fmt_data)", "export_array(fp, data.data, fmt_data)", "IO-layout"),
         ("pyttb/import_data.py", "            nz = import_nnz(fp)\n", "            nz = 0\n", "IO-seq"),
     ],
     "C17": [
+        ('pyttb/pyttb_utils.py', '    return np.sort(idxA)[location[valid]]', '    return location[valid]', 'HELP-space'),
         ("pyttb/pyttb_utils.py", "    subs: np.ndarray,\n    order: MemoryLayout = \"F\",", "    subs: np.ndarray,\n    order: MemoryLayout = \"C\",", "IDX-inv"),
         ("pyttb/pyttb_utils.py", "            vidx = sidx\n        else:", "            vidx = sdims\n        else:", "DIMS"),
         ("pyttb/khatrirao.py", "np.reshape(i, newshape=(-1, 1, ncolFirst)) * np.reshape(\n            P, newshape=(1, -1, ncolFirst), order=\"F\"", "np.reshape(i, newshape=(1, -1, ncolFirst)) * np.reshape(\n            P, newshape=(-1, 1, ncolFirst), order=\"F\"", "KRAX"),
         ("pyttb/pyttb_utils.py", "    valid, location = tt_ismember_rows(\n        MatrixBUnique[np.argsort(idxB)], MatrixAUnique[np.argsort(idxA)]\n    )\n    return location[valid]", "    valid, location = tt_ismember_rows(\n        MatrixBUnique[np.argsort(idxB)], MatrixAUnique\n    )\n    return location[valid]", "HELP-dom"),
     ],
     "C18": [
+        ('pyttb/cp_apr.py', '                mu = mu0\n', '                pass\n', 'ROWS'),
         ("pyttb/tucker_als.py", "            print(f\" Iter {iteration}: fit = {fit:e} fitdelta = {fitchange:7.1e}\")", "            fitchange = float(f\"{fitchange:7.1e}\")\n            print(f\" Iter {iteration}: fit = {fit:e} fitdelta = {fitchange:7.1e}\")", "TAINT"),
         ("pyttb/hosvd.py", "    if verbosity > 0:\n        print(\"Computing HOSVD...\\n\")", "    if verbosity > 0:\n        print(\"Computing HOSVD...\\n\")\n        np.random.seed(0)", None),
         ("pyttb/cp_als.py", "    if printitn > 0:\n        print(\"CP_ALS:\")", "    if printitn > 0:\n        print(\"CP_ALS:\")\n        maxiters = max(maxiters, 1)", "TAINT"),
@@ -150,6 +162,7 @@ MUTANTS: Dict[str, List[Tuple[str, str, str, Optional[str]]]] = {
         ("pyttb/tensor.py", "        if self.ndims == 1 and (order == 1).all():", "        if (order == 1).all():", "GD-val"),
     ],
     "C20": [
+        ('pyttb/tensor.py', '    subs = np.tile(np.arange(0, N)[:, None], (len(constructed_shape),))\n    X[subs] = elements', '    stride = int(np.sum(np.cumprod((1,) + constructed_shape[1:])))\n    X[np.arange(0, N) * stride] = elements', 'DIAG'),
         ("pyttb/tensor.py", "    def ones(shape: Tuple[int, ...]) -> np.ndarray:\n        return np.ones(shape, order=order)", "    def ones(shape: Tuple[int, ...]) -> np.ndarray:\n        return np.zeros(shape, order=order)", "GEN-fill"),
         ("pyttb/sptensor.py", "            subs = np.unique(subs, axis=0)\n            cnt += 1", "            cnt += 1", "GEN-uniq"),
         ("pyttb/sptensor.py", "        vals = function_handle((nonzeros, 1))\n\n        # Store everything", "        vals = function_handle((nonzeros + 1, 1))\n\n        # Store everything", "GEN-cnt"),
